@@ -1,6 +1,8 @@
 #!/bin/bash
 # run pinned suite on /repo (or $1) and compare passing set with BASELINE.json stable_pass
 R="${1:-/repo}"
+# the editable install always resolves pymoca to /repo/src: put the tree under test first on the path
+export PYTHONPATH="$R/src${PYTHONPATH:+:$PYTHONPATH}"
 cd "$R" && /venv/bin/python -m pytest -ra -q -p no:cacheprovider --timeout=900 --continue-on-collection-errors --junitxml=/tmp/vf_junit_$$.xml >/tmp/vf_pytest_$$.log 2>&1
 /venv/bin/python - "$$" <<'PY'
 import json, sys, xml.etree.ElementTree as ET
